@@ -279,7 +279,7 @@ func Main(c *Check) {
 	single := flag.Int64("case", -1, "internal: run one case, print result")
 	from := flag.Int64("from", 0, "internal")
 	to := flag.Int64("to", -1, "internal")
-	percase := flag.Bool("percase", false, "internal")
+	skipList := flag.String("skip", "", "internal: comma-separated case indices to skip")
 	flag.Parse()
 	if *tier == "" {
 		*tier = "quick"
@@ -314,7 +314,7 @@ func Main(c *Check) {
 		return
 	}
 	if *worker != "" {
-		runWorker(c, *tier, *worker, *from, *to, *percase)
+		runWorker(c, *tier, *worker, *from, *to, *skipList)
 		return
 	}
 	os.Exit(parent(c, *tier))
@@ -343,18 +343,23 @@ func workers(c *Check) int {
 }
 
 // worker: handles chunks j (of size ch) with j%n==k, within [from,to).
-func runWorker(c *Check, tier, spec string, from, to int64, percase bool) {
+// Journal: "B lo" at chunk start, "S idx" (flushed) before every case, "E lo json"
+// with the chunk aggregate, "D" when done. Cases in skip are not run.
+func runWorker(c *Check, tier, spec string, from, to int64, skipList string) {
 	var k, n int
 	fmt.Sscanf(spec, "%d/%d", &k, &n)
+	skip := map[int64]bool{}
+	for _, x := range strings.Split(skipList, ",") {
+		if v, err := strconv.ParseInt(x, 10, 64); err == nil {
+			skip[v] = true
+		}
+	}
 	sp, _ := c.Build(tier)
 	total := sp.Len()
 	if to < 0 || to > total {
 		to = total
 	}
 	ch := chunkSize(c, total, workers(c))
-	if percase {
-		ch = 1
-	}
 	w := bufio.NewWriter(os.Stdout)
 	stop := make(chan struct{})
 	go func() { // parent closes stdin to ask us to stop
@@ -372,9 +377,6 @@ func runWorker(c *Check, tier, spec string, from, to int64, percase bool) {
 		if hi <= from {
 			continue
 		}
-		if lo < from {
-			lo = from
-		}
 		select {
 		case <-stop:
 			w.Flush()
@@ -382,46 +384,16 @@ func runWorker(c *Check, tier, spec string, from, to int64, percase bool) {
 		default:
 		}
 		fmt.Fprintf(w, "B %d\n", lo)
-		w.Flush()
 		co := chunkOut{Start: lo, Outcomes: map[string]int64{}, Counters: map[string]int64{}}
 		keys := map[uint64]struct{}{}
 		for i := lo; i < hi; i++ {
+			if skip[i] {
+				continue
+			}
+			fmt.Fprintf(w, "S %d\n", i)
+			w.Flush()
 			r := RunCase(sp, i)
-			co.Cases++
-			if r.Evals == 0 {
-				r.Evals = 1
-			}
-			co.Evals += r.Evals
-			co.States += r.States
-			co.Transitions += r.Transitions
-			co.Distinct += r.Distinct
-			if r.Capped {
-				co.Capped++
-			}
-			if r.Nontrivial {
-				co.Nontrivial++
-				if r.Key != "" {
-					keys[h64(r.Key)] = struct{}{}
-				}
-			}
-			for _, kk := range r.Keys {
-				keys[h64(kk)] = struct{}{}
-			}
-			if r.Outcome != "" {
-				co.Outcomes[r.Outcome]++
-			}
-			for o, v := range r.Outcomes {
-				co.Outcomes[o] += v
-			}
-			for cn, v := range r.Counters {
-				co.Counters[cn] += v
-			}
-			if len(co.Violations) < 50 {
-				co.Violations = append(co.Violations, r.Violations...)
-			}
-			if r.Sample != nil && len(co.Samples) < 2 && lo < 4*ch*int64(n) {
-				co.Samples = append(co.Samples, r.Sample)
-			}
+			co.add(&r, keys, lo < 4*ch*int64(n))
 		}
 		for kk := range keys {
 			co.Keys = append(co.Keys, kk)
@@ -432,6 +404,44 @@ func runWorker(c *Check, tier, spec string, from, to int64, percase bool) {
 	}
 	fmt.Fprintf(w, "D\n")
 	w.Flush()
+}
+
+func (co *chunkOut) add(r *Result, keys map[uint64]struct{}, sample bool) {
+	co.Cases++
+	if r.Evals == 0 {
+		r.Evals = 1
+	}
+	co.Evals += r.Evals
+	co.States += r.States
+	co.Transitions += r.Transitions
+	co.Distinct += r.Distinct
+	if r.Capped {
+		co.Capped++
+	}
+	if r.Nontrivial {
+		co.Nontrivial++
+		if r.Key != "" {
+			keys[h64(r.Key)] = struct{}{}
+		}
+	}
+	for _, kk := range r.Keys {
+		keys[h64(kk)] = struct{}{}
+	}
+	if r.Outcome != "" {
+		co.Outcomes[r.Outcome]++
+	}
+	for o, v := range r.Outcomes {
+		co.Outcomes[o] += v
+	}
+	for cn, v := range r.Counters {
+		co.Counters[cn] += v
+	}
+	if len(co.Violations) < 50 {
+		co.Violations = append(co.Violations, r.Violations...)
+	}
+	if r.Sample != nil && len(co.Samples) < 2 && sample {
+		co.Samples = append(co.Samples, r.Sample)
+	}
 }
 
 type workerRun struct {
@@ -579,6 +589,7 @@ func parent(c *Check, tier string) int {
 		go func(k int) {
 			defer wg.Done()
 			from := int64(0)
+			var skip []string
 			for {
 				if time.Now().After(stopAt) {
 					mu.Lock()
@@ -586,7 +597,7 @@ func parent(c *Check, tier string) int {
 					mu.Unlock()
 					return
 				}
-				cmd := selfCmd(c, "--tier", tier, "--worker", fmt.Sprintf("%d/%d", k, nw), "--from", strconv.FormatInt(from, 10))
+				cmd := selfCmd(c, "--tier", tier, "--worker", fmt.Sprintf("%d/%d", k, nw), "--from", strconv.FormatInt(from, 10), "--skip", strings.Join(skip, ","))
 				stdin, _ := cmd.StdinPipe()
 				stdout, _ := cmd.StdoutPipe()
 				errb := &tailBuf{}
@@ -598,7 +609,7 @@ func parent(c *Check, tier string) int {
 					mu.Unlock()
 					return
 				}
-				lines := make(chan string, 16)
+				lines := make(chan string, 64)
 				go func() {
 					sc := bufio.NewScanner(stdout)
 					sc.Buffer(make([]byte, 1<<20), 1<<30)
@@ -607,12 +618,10 @@ func parent(c *Check, tier string) int {
 					}
 					close(lines)
 				}()
-				cur := int64(-1)
-				next := from
-				curStart := time.Now()
-				done := false
-				killed := false
-				stopped := false
+				curChunk := int64(-1) // chunk in progress
+				curCase := int64(-1)  // case in progress
+				caseStart := time.Now()
+				done, killed, stopped, hung := false, false, false, false
 				timer := time.NewTicker(500 * time.Millisecond)
 			loop:
 				for {
@@ -623,8 +632,11 @@ func parent(c *Check, tier string) int {
 						}
 						switch {
 						case strings.HasPrefix(l, "B "):
-							cur, _ = strconv.ParseInt(l[2:], 10, 64)
-							curStart = time.Now()
+							curChunk, _ = strconv.ParseInt(l[2:], 10, 64)
+							curCase = -1
+						case strings.HasPrefix(l, "S "):
+							curCase, _ = strconv.ParseInt(l[2:], 10, 64)
+							caseStart = time.Now()
 						case strings.HasPrefix(l, "E "):
 							rest := l[2:]
 							sp := strings.IndexByte(rest, ' ')
@@ -633,9 +645,9 @@ func parent(c *Check, tier string) int {
 								mu.Lock()
 								a.merge(&co)
 								mu.Unlock()
-								next = (co.Start/ch + int64(nw)) * ch
+								from = (co.Start/ch + int64(nw)) * ch
 							}
-							cur = -1
+							curChunk, curCase = -1, -1
 						case l == "D":
 							done = true
 						}
@@ -644,11 +656,11 @@ func parent(c *Check, tier string) int {
 							stopped = true
 							stdin.Close()
 						}
-						if cur >= 0 && time.Since(curStart) > caseTimeout*time.Duration(maxI64(1, minI64(ch, 4))) {
-							killed = true
+						if curCase >= 0 && time.Since(caseStart) > caseTimeout && !killed {
+							killed, hung = true, true
 							cmd.Process.Kill()
 						}
-						if stopped && time.Now().After(stopAt.Add(caseTimeout)) {
+						if stopped && time.Now().After(stopAt.Add(caseTimeout)) && !killed {
 							killed = true
 							cmd.Process.Kill()
 						}
@@ -659,77 +671,54 @@ func parent(c *Check, tier string) int {
 				if done {
 					return
 				}
-				if stopped && cur < 0 {
-					// stopped at a chunk boundary
+				if stopped && !hung {
 					mu.Lock()
-					noteIncomplete(next)
+					if curChunk >= 0 {
+						noteIncomplete(curChunk)
+					} else {
+						noteIncomplete(from)
+					}
 					mu.Unlock()
 					return
 				}
-				if cur < 0 && !killed {
-					// died between chunks (or at startup)
+				if curCase < 0 {
+					// died outside a case (startup or between cases)
 					mu.Lock()
 					a.Violations = append(a.Violations, Violation{Class: "harness:worker-died", Msg: "worker died outside a case: " + tail(errb.String(), 2000), Idx: from})
 					noteIncomplete(from)
 					mu.Unlock()
 					return
 				}
-				// crashed or hung inside chunk starting at cur: bisect per case
-				hi := cur + ch
-				if hi > total {
-					hi = total
-				}
-				for i := cur; i < hi; i++ {
-					if time.Now().After(stopAt.Add(caseTimeout)) {
-						mu.Lock()
-						noteIncomplete(i)
-						mu.Unlock()
-						return
-					}
-					r, stderr, to := runSingle(c, tier, i, caseTimeout)
-					co := chunkOut{Start: i, Cases: 1, Outcomes: map[string]int64{}, Counters: map[string]int64{}}
-					if to {
-						// confirm with 3x timeout
-						r2, stderr2, to2 := runSingle(c, tier, i, 3*caseTimeout)
-						if to2 {
-							co.Violations = append(co.Violations, Violation{Class: "hang", Msg: fmt.Sprintf("case did not finish within %v (twice)", 3*caseTimeout), Idx: i})
-							co.Outcomes["hang"]++
-						} else {
-							r, stderr = r2, stderr2
-						}
-					}
-					if r == nil && !to {
-						co.Violations = append(co.Violations, Violation{Class: crashClass(stderr), Msg: "process crashed: " + tail(stderr, 3000), Idx: i})
+				// crashed or hung inside case curCase
+				co := chunkOut{Start: curCase, Cases: 1, Evals: 1, Outcomes: map[string]int64{}, Counters: map[string]int64{}}
+				if hung {
+					// confirm alone with 3x the timeout before believing it
+					r2, stderr2, to2 := runSingle(c, tier, curCase, 3*caseTimeout)
+					switch {
+					case to2:
+						co.Violations = append(co.Violations, Violation{Class: "hang", Msg: fmt.Sprintf("case did not finish within %v (and %v alone)", caseTimeout, 3*caseTimeout), Idx: curCase})
+						co.Outcomes["hang"]++
+					case r2 == nil:
+						co.Violations = append(co.Violations, Violation{Class: crashClass(stderr2), Msg: "process crashed: " + tail(stderr2, 3000), Idx: curCase})
 						co.Outcomes["crash"]++
-						co.Evals = 1
-					} else if r != nil {
-						co.Evals = maxI64(1, r.Evals)
-						co.States, co.Transitions, co.Distinct = r.States, r.Transitions, r.Distinct
-						if r.Nontrivial {
-							co.Nontrivial = 1
-							if r.Key != "" {
-								co.Keys = append(co.Keys, h64(r.Key))
-							}
+					default:
+						keys := map[uint64]struct{}{}
+						co.Cases, co.Evals = 0, 0
+						co.add(r2, keys, false)
+						for kk := range keys {
+							co.Keys = append(co.Keys, kk)
 						}
-						for _, kk := range r.Keys {
-							co.Keys = append(co.Keys, h64(kk))
-						}
-						if r.Outcome != "" {
-							co.Outcomes[r.Outcome]++
-						}
-						for o, v := range r.Outcomes {
-							co.Outcomes[o] += v
-						}
-						for cn, v := range r.Counters {
-							co.Counters[cn] += v
-						}
-						co.Violations = append(co.Violations, r.Violations...)
 					}
-					mu.Lock()
-					a.merge(&co)
-					mu.Unlock()
+				} else {
+					stderr := errb.String()
+					co.Violations = append(co.Violations, Violation{Class: crashClass(stderr), Msg: "process crashed: " + tail(stderr, 3000), Idx: curCase})
+					co.Outcomes["crash"]++
 				}
-				from = hi
+				mu.Lock()
+				a.merge(&co)
+				mu.Unlock()
+				skip = append(skip, strconv.FormatInt(curCase, 10))
+				from = curChunk // redo the chunk, skipping the cases known to crash
 			}
 		}(k)
 	}
